@@ -19,6 +19,26 @@ def variant_of(e):
     return e[2] if e[0] == "agg" else None
 
 
+def error_id_rule(ctx, rule, prog):
+    """Error::id(): every error but the one raised before two octets were read yields Some(the id it carries) (C09.2 / C03.5)"""
+    ei = prog.find("protocol::deserialise::Error::id")
+    eir = A.Resolver(ei)
+    eic = A.Conds(ei, eir)
+    arms = {}
+    for b, e in A.return_exprs(ei, eir):
+        vs = [fc[1] for fc in eic.facts_on_all_paths(b) if fc[0] == "is" and A.peel(fc[2]) == ("param", 1)]
+        pe = A.peel(e)
+        for v in vs:
+            if pe[0] == "agg" and pe[2] == "Some":
+                pay = A.peel(dict(pe[3])["0"])
+                arms[v] = pay[0] == "field" and pay[1][0] == "downcast" and pay[1][2] == v
+            else:
+                arms[v] = "None"
+    evs = [v["name"] for v in prog.adt("dns_types::protocol::deserialise::Error")["variants"]]
+    ok = all(arms.get(v) is True for v in evs if v != "CompletelyBusted") and arms.get("CompletelyBusted") == "None"
+    ctx.check(ok, rule, "Error::id:table", "every error but CompletelyBusted yields Some(its id)", "Error::id table: %s" % arms, ei.loc())
+
+
 def run(ctx):
     prog = ctx.prog
     ctx.rule("C09.1", "handle_raw_message dispatch: response -> no reply; standard opcode -> resolve; other opcode -> NOTIMP on make_response(); parse error -> FORMERR from Error::id()")
@@ -97,22 +117,7 @@ def run(ctx):
         d = dict(fer.rvalue(st["rv"], (b, i))[3])
         ok = A.peel(d["id"]) == ("param", 1) and is_const(d["is_response"], True) and variant_of(d["rcode"]) == "FormatError" and is_const(d["is_truncated"], False)
         ctx.check(ok, "C09.2", "make_format_error_response:header", "id = argument, QR set, FORMERR", "FORMERR header is %s" % {k: A.show(v) for k, v in d.items()}, fe.loc(b, i))
-    ei = prog.find("protocol::deserialise::Error::id")
-    eir = A.Resolver(ei)
-    eic = A.Conds(ei, eir)
-    arms = {}
-    for b, e in A.return_exprs(ei, eir):
-        vs = [fc[1] for fc in eic.facts_on_all_paths(b) if fc[0] == "is" and A.peel(fc[2]) == ("param", 1)]
-        pe = A.peel(e)
-        for v in vs:
-            if pe[0] == "agg" and pe[2] == "Some":
-                pay = A.peel(dict(pe[3])["0"])
-                arms[v] = pay[0] == "field" and pay[1][0] == "downcast" and pay[1][2] == v
-            else:
-                arms[v] = "None"
-    evs = [v["name"] for v in prog.adt("dns_types::protocol::deserialise::Error")["variants"]]
-    ok = all(arms.get(v) is True for v in evs if v != "CompletelyBusted") and arms.get("CompletelyBusted") == "None"
-    ctx.check(ok, "C09.2", "Error::id:table", "every error but CompletelyBusted yields Some(its id)", "Error::id table: %s" % arms, ei.loc())
+    error_id_rule(ctx, "C09.2", prog)
 
     # ---------------------------------------------------------------- C09.3
     # "unknown type or class" means exactly the catch-all variants: a query type is unknown iff it is Record(Unknown(_)), ANY /
